@@ -3,7 +3,7 @@
    program of the same template.  check_corr: model = implementation (and the source term denotes what the default
    program plays).  check_spec: the implementation's VM history is the default program's staircase. *)
 From Coq Require Import ZArith QArith List Bool.
-Require Import QV.common.Util QV.C17.Model QV.C17.Spec.
+Require Import QV.common.Util QV.C17.Model QV.C17.Spec QV.C17.Scope.
 Import ListNotations.
 Open Scope Z_scope.
 
@@ -13,6 +13,8 @@ Inductive iobs :=
 
 Inductive case :=
 | CRun (channels : nat) (fuel : positive) (s : src) (exact : bool) (impl : iobs) (dflt : steps_t) (dflt_total : Q)
+(* templates with loop-index rebinding mappings: the model flattens the scopes itself (Scope.v) *)
+| CRun2 (channels : nat) (fuel : positive) (s : src2) (exact : bool) (impl : iobs) (dflt : steps_t) (dflt_total : Q)
 | CScale (channels : nat) (fuel : positive) (s : src) (hw : list (option N * (Q * Q))) (by_idx : list (Q * Q))
          (impl : iobs) (dflt : steps_t) (dflt_total : Q)
 | CCrash.
@@ -46,6 +48,9 @@ Definition check_corr (c : case) : bool :=
   | CRun ch fuel s exact impl dflt dtot =>
       obs_eqb exact (pipeline fuel ch s) impl
       && (let '(st, tot) := staircase s in steps_eqb (tol_of exact (length dflt)) st dflt && Qeq_bool tot dtot)
+  | CRun2 ch fuel s2 exact impl dflt dtot =>
+      obs_eqb exact (pipeline fuel ch (src_of_impl s2)) impl
+      && (let '(st, tot) := staircase (src_of_spec s2) in steps_eqb (tol_of exact (length dflt)) st dflt && Qeq_bool tot dtot)
   | CScale ch fuel s hw _ impl dflt dtot =>
       obs_eqb true (pipeline_transformed fuel ch hw s) impl
       && (let '(st, tot) := staircase s in steps_eqb 0 st dflt && Qeq_bool tot dtot)
@@ -65,6 +70,11 @@ Definition check_spec (c : case) : bool :=
       match impl with
       | IHist h tot =>
           hist_matches (tol_of exact (length h)) h dflt && Qeq_bool tot dtot
+      | IErr _ => false
+      end
+  | CRun2 ch fuel s2 exact impl dflt dtot =>
+      match impl with
+      | IHist h tot => hist_matches (tol_of exact (length h)) h dflt && Qeq_bool tot dtot
       | IErr _ => false
       end
   | CScale ch fuel s hw by_idx impl dflt dtot =>
